@@ -39,7 +39,8 @@ ScoreSet(ver, o, m) ==
 
 (* why event e is not a behaviour of the specification ("" when it is) *)
 Why(e) ==
-  CASE e.op = "parse" ->
+  CASE e.pan # "" -> "the call panicked"
+    [] e.op = "parse" ->
          LET r == ParseResult(e.ver, e.b)
              wf == WF(e.ver, e.b)
          IN  IF r.res.ok # wf THEN "SPEC: automaton and grammar disagree"
